@@ -217,6 +217,9 @@ func cmdCheck(args []string) {
 				if res.Err != nil {
 					fmt.Printf("SELFCHECK-ERROR property=%s harness=%s: %v\n", prop, es.Entry, res.Err)
 					tracesMismatch++
+					if strings.Contains(res.Err.Error(), "native build") {
+						engineErr = fmt.Sprintf("harness %s does not build natively for replay", es.Entry)
+					}
 				} else if res.Failed || !sameObs(res.Observed, s.Observe) {
 					fmt.Printf("SELFCHECK-MISMATCH property=%s harness=%s native_failed=%v detail=%q native_obs=%v exec_obs=%v\n", prop, es.Entry, res.Failed, res.Detail, res.Observed, s.Observe)
 					tracesMismatch++
